@@ -62,7 +62,8 @@ Record ospec := mk_ospec {
   os_own       : option Z;                  (* Output constructed with an info *)
   os_prov_info : option (list dep * Z);     (* component passes push_infos[o] once deps hold *)
   os_rules     : option (list rule);        (* out_info_rules[o] *)
-  os_prov_data : option (list dep * nat)    (* component passes push_data[o] once deps hold *)
+  os_prov_data : option (list dep * nat);   (* component passes push_data[o] once deps hold *)
+  os_spare     : bool                       (* the output has a target adapter with no input behind it *)
 }.
 
 Record spec := mk_spec {
@@ -149,6 +150,10 @@ Section Helper.
   (** len(Output._connected_inputs): every existing input linked to [o] has pinged. *)
   Definition nconn (o : nat) : nat :=
     length (filter (fun i => Nat.eqb (is_src (sp_in sp i)) o) (sp_ins sp)).
+
+  (** Output.has_targets: [_targets] (direct targets: inputs and adapters) is non-empty.  It differs from
+      [nconn] (the pinged end points, [_connected_inputs]) when an adapter is a dead end. *)
+  Definition no_targets (o : nat) : bool := (nconn o =? 0)%nat && negb (os_spare (sp_out sp o)).
 
   (** _apply_rules: [None] = MissingInfoError (or, outside the domain, time never set). *)
   Fixpoint apply_rules (w : world) (rs : list rule) (acc : option Z) : option Z :=
@@ -278,7 +283,7 @@ Section Helper.
       negb (o_dpushed st) && is_some (o_dcache st) && o_ipushed st && is_some (o_hinfo st).
 
     Definition pushed_entries (o : nat) (t : Z) (p : nat) : list (option Z * nat) :=
-      if (nconn o =? 0)%nat then []
+      if no_targets o then []
       else if os_static (sp_out sp o) then [(None, p)]
       else if t =? sp_start sp then [(Some t, p)]
       else [(Some (sp_start sp), p); (Some t, p)].
@@ -547,8 +552,9 @@ Definition script_step (sp : spec) (c : comp) (w : world) (op : sop) : world * s
                                   else wo w o'), ROk)
   | SSrcData o p =>
       let st := wo w o in
-      if (nconn sp o =? 0)%nat then (w, ROk)
+      if no_targets sp o then (w, ROk)
       else if (o_exch st <? nconn sp o)%nat then (w, RNoData)
+      else if negb (is_some (o_info st)) then (w, RNoData)   (* push_data 184: self.info *)
       else (mk_world (wi w) (fun o' => if Nat.eqb o' o
                                        then mk_ostate (o_info st) (o_exch st)
                                               (o_data st ++ [(if os_static (sp_out sp o) then None else Some (sp_start sp), p)])
@@ -578,7 +584,7 @@ Fixpoint script_run (sp : spec) (c : comp) (w : world) (ops : list sop) : list s
 (** * Correspondence interface *)
 
 Definition dflt_ispec := mk_ispec 0 None None None false.
-Definition dflt_ospec := mk_ospec false None None None None.
+Definition dflt_ospec := mk_ospec false None None None None false.
 
 Definition mk_sp (ins : list ispec) (outs : list ospec) (start : Z) : spec :=
   mk_spec (fun i => nth i ins dflt_ispec) (fun o => nth o outs dflt_ospec) (seq 0 (length ins)) start.
